@@ -163,6 +163,7 @@ package cose
 //@     typeof(m.Headers.Unprotected[box(gocose.HeaderLabelX5Chain)]) == type([]any) && CoseChainOf(c.SignerInfo.CertificateChain, X5Chain(m)) }
 
 //@ func (*envelope).Content(e)
+//@   refines (signature.Envelope).Content except meaning
 //@   props C01 C07 C13
 //@   requires e != nil
 //@   ensures [none] e.base == nil ==> result == nil && typeof(err) == type(*signature.SignatureEnvelopeNotFoundError)
@@ -172,6 +173,7 @@ package cose
 // stmt C01/C02 (COSE): the verifier is built from the leaf certificate's key and the algorithm that key dictates; no
 // external data; success only if the message verifies under it
 //@ func (*envelope).Verify(e)
+//@   refines (signature.Envelope).Verify except meaning
 //@   props C01 C02
 //@   requires e != nil
 //@   ensures [none] e.base == nil ==> result == nil && typeof(err) == type(*signature.SignatureEnvelopeNotFoundError)
@@ -287,6 +289,7 @@ package cose
 // on success; the timestamp block runs only under notary.x509 with a timestamper, over this message's signature bytes
 // with the hash of the signing algorithm
 //@ func (*envelope).Sign(e, req)
+//@   refines (signature.Envelope).Sign
 //@   props C08 C15 C16 C20
 //@   requires e != nil && req != nil && req.Signer != nil
 //@   modifies e.base
